@@ -141,6 +141,7 @@ PROPS["C02"] = {
     "wall_quick": 1200, "wall_thorough": 7200,
     "harnesses": [
         {"entry": "pkg/decode.VerifUSKernel", "clause": "tryUEndian/trySEndian for every width 1..64, both byte orders, unsigned and two's complement", "bounds": {"buffer_bytes": 10, "pos": "0..23", "nBits": "1..64"}},
+        {"entry": "pkg/decode.VerifUSWidthDomain", "clause": "integer readers refuse widths outside their domain (-2..0 and 65..67 tried) with an error, never a runtime panic; zero width unsigned read is 0", "bounds": {"nBits": "-2..67 outside 1..64"}},
         {"entry": "pkg/decode.VerifUSTail", "clause": "error iff not enough bits (buffer tail)", "bounds": {"buffer_bytes": 3, "pos": "0..24", "nBits": "1..32"}},
         {"entry": "pkg/decode.VerifReverseBytes64", "clause": "ReverseBytes64 vs byte loop for widths 1..64", "bounds": {"v": "any value < 2^nBits"}},
         {"entry": "pkg/decode.VerifGenInt", "group": "genint", "clause": "every generated integer reader method (enumerated from go/types): value, width, byte order, advance, error iff short", "bounds": {"buffer_bytes": 10, "pos": "0,3,7"}},
@@ -340,9 +341,11 @@ PROPS["C10"] = {
         {"entry": "internal/asciiwriter.VerifASCIIWriterWide", "group": "asciiw", "tier": "thorough", "clause": "ASCII column layout, widths 1..16", "bounds": {"width": "1..16"}},
         {"entry": "internal/asciiwriter.VerifSafeASCII", "clause": "SafeASCII(c): printable itself, else a dot; all 256 bytes", "bounds": {}},
         {"entry": "internal/mathx.VerifTwosComplementZigZag", "clause": "TwosComplement for widths 1..64 and ZigZag", "bounds": {}},
+        {"entry": "pkg/interp.VerifHexdumpLayout", "group": "dump", "clause": "the real hexdump()/dump()/dumpEx()/columnwriter path on a binary over symbolic bytes: every byte overlapping the value's bit range is shown exactly once, in the row whose address plus the cell's column is its offset, as its hex digits and ASCII rendering; all other cells blank; row addresses consecutive multiples of the line width", "bounds": {"buffer_bytes": 3, "line_bytes": "1..4", "start/len": "every byte position, bit offsets 0 and 5 / length remainders 0 and 4", "addrbase": 16, "display_bytes": "0 (no truncation)"}},
+        {"entry": "pkg/interp.VerifHexdumpLayoutWide", "group": "dump", "tier": "thorough", "clause": "same, 4 bytes, line widths 1..6", "bounds": {"buffer_bytes": 4, "line_bytes": "1..6"}},
     ],
-    "assumptions": ["the layout harnesses use a one/two character identity rendering per byte (the writers take the rendering as a parameter; production passes Pair / SafeASCII, checked on their own)"],
-    "outside": ["dump() address arithmetic, columnwriter, colour escapes, tree column text: not reached (fmt/columnwriter heavy)", "number formatting (strconv) and DigitsInBase (float log)", "colorjson"],
+    "assumptions": ["fmt.Fprintf/Fprint in dumpEx are the engine's implementation of the verbs used (%s %d %v on concrete arguments; fq's ansi.colorFormatter is rendered as the concatenation of its parts); the bytes themselves reach the columns through the real hexpairwriter/asciiwriter/columnwriter code", "the layout harnesses use a one/two character identity rendering per byte (the writers take the rendering as a parameter; production passes Pair / SafeASCII, checked on their own)"],
+    "outside": ["dump of decode trees (tree column text, nested roots, array truncation), display_bytes truncation, colour escapes, address bases other than 16", "number formatting (strconv) and DigitsInBase (float log)", "colorjson"],
 }
 
 PROPS["C16"] = {
@@ -355,9 +358,13 @@ PROPS["C16"] = {
         {"entry": "format/cbor.VerifCborScalar", "clause": "cbor: integers in all count forms, false/true/null, float16/32/64, definite byte/text strings; 64-bit declared lengths", "bounds": {"input_bytes": "0..10", "payload": "<= 3 bytes"}},
         {"entry": "format/cbor.VerifCborArray", "clause": "cbor: definite and indefinite arrays of one-byte integers", "bounds": {"input_bytes": "1..4"}},
         {"entry": "format/cbor.VerifCborIndefiniteLong", "clause": "cbor: indefinite array of 29..34 elements keeps all elements", "bounds": {"elements": "29..34"}},
+        {"entry": "format/bencode.VerifBencodeInt", "group": "bencode-int", "clause": "bencode: i<sign><digits>e with 1, 2, 18 and 19 digits (leading digits those of the largest int64, last three symbolic; both signs, down to the minimum int64) is exactly that integer, spanning exactly its text", "bounds": {"digits": "1,2,18,19", "symbolic_digits": 3}},
+        {"entry": "format/bencode.VerifBencodeIntLong", "group": "bencode-int", "tier": "thorough", "clause": "same for 10 digit counts", "bounds": {"digits": "1,2,3,5,9,10,15,17,18,19"}},
+        {"entry": "format/bencode.VerifBencodeString", "clause": "bencode: <len>:<bytes> is exactly the declared bytes", "bounds": {"len": "0..3", "payload": "symbolic"}},
+        {"entry": "format/bencode.VerifBencodeList", "clause": "bencode: list / dictionary of small integers: element order and values", "bounds": {"elements": 2}},
     ],
     "assumptions": ["text payloads: byte range and length only (UTF-8 decoding stubbed as identity)"],
-    "outside": ["the jq reducers _<format>_torepr (jq text)", "bson, bencode, asn1_ber value equivalence (only their crash freedom is checked, C06)", "json/yaml/toml/xml/csv (third-party parsers): not applicable", "cbor maps, tags, indefinite strings; simple values other than false/true/null (not decoded by fq: documented TODO)"],
+    "outside": ["the jq reducers _<format>_torepr (jq text)", "bson, asn1_ber value equivalence (only their crash freedom is checked, C06)", "bencode: fully symbolic 19 digit integers (64-bit multiplication chains leave the solver undecided: leading digits are concrete), nested containers beyond depth 1", "json/yaml/toml/xml/csv (third-party parsers): not applicable", "cbor maps, tags, indefinite strings; simple values other than false/true/null (not decoded by fq: documented TODO)"],
 }
 
 PROPS["C06"] = {
@@ -373,8 +380,7 @@ PROPS["C06"] = {
         {"entry": "format/bson.VerifNoCrashLong", "group": "nc-bson", "tier": "thorough", "clause": "bson never panics", "bounds": {"input_bytes": "0..8"}},
         {"entry": "format/bencode.VerifNoCrash", "group": "nc-bencode", "clause": "bencode never panics", "bounds": {"input_bytes": "0..4"}},
         {"entry": "format/bencode.VerifNoCrashLong", "group": "nc-bencode", "tier": "thorough", "clause": "bencode never panics", "bounds": {"input_bytes": "0..5"}},
-        {"entry": "format/asn1.VerifNoCrash", "group": "nc-asn1", "clause": "asn1_ber never panics", "bounds": {"input_bytes": "0..3"}},
-        {"entry": "format/asn1.VerifNoCrashLong", "group": "nc-asn1", "tier": "thorough", "clause": "asn1_ber never panics", "bounds": {"input_bytes": "0..4"}},
+        {"entry": "format/asn1.VerifNoCrash", "group": "nc-asn1", "clause": "asn1_ber never panics", "bounds": {"input_bytes": "0..4"}},
         {"entry": "format/luajit.VerifNoCrash", "group": "nc-luajit", "clause": "luajit (header) never panics", "bounds": {"input_bytes": "0..8"}},
         {"entry": "format/luajit.VerifNoCrashLong", "group": "nc-luajit", "tier": "thorough", "clause": "luajit (header) never panics", "bounds": {"input_bytes": "0..10"}},
         {"entry": "format/luajit.VerifNoCrashBCIns", "clause": "one luajit bytecode instruction entered directly, any opcode byte", "bounds": {"input_bytes": "0..4"}},
@@ -410,6 +416,7 @@ PROPS["C09"] = {
     "explanation": "binary values against a reference bit string: the real Binary.JQValueSlice/JQValueIndex/JQValueLength/JQValueKey(size,start,stop,unit,bits,bytes)/JQValueToNumber, toBitReaderEx for numbers, strings, binaries and binary arrays (fast and general path), over symbolic bytes with bit granular ranges in both units",
     "wall_quick": 900, "wall_thorough": 3600,
     "harnesses": [
+        {"entry": "pkg/interp.VerifBinaryPadArray", "clause": "a zero padded binary (x|tobits(n), through the real _toBits) as a later member of a binary array: first member bits, exactly the padding zeros, then its own bits, whatever the destination buffer held", "bounds": {"first": "3 bytes, bit granular range", "padded": "1,4,8,11 bits padded to multiples of 3,4,8,12"}},
         {"entry": "pkg/interp.VerifBinarySlice", "clause": "slice = sub-sequence in units", "bounds": {"bytes": 4, "start": "0,3,8,9", "len": "0,1,7,8,9,13,23", "from<=to<=length": "all"}},
         {"entry": "pkg/interp.VerifBinaryIndexKeys", "clause": "index = unit-wide integer; outside is null; size/start/stop (rounded up)/unit/bits/bytes keys", "bounds": {"bytes": 4}},
         {"entry": "pkg/interp.VerifBinaryToNumber", "clause": "tonumber = unsigned big-endian value of the bits", "bounds": {"bits": "<= 23"}},
